@@ -250,7 +250,7 @@ def cases(tier):
             if len(present) > (3 if tier == 'quick' else 4):
                 continue
             patterns = [['Q'] * len(present)]
-            for idx in range(len(present)):
+            for idx in range(len(present) if tier == 'thorough' else min(1, len(present))):
                 for special in ('CA', 'N'):
                     pat = ['Q'] * len(present)
                     pat[idx] = special
@@ -260,8 +260,9 @@ def cases(tier):
                             'label': 'ptm[%s names=%s]' % ('+'.join(present) or 'none', ','.join(names)),
                             'timeout': 900, 'path_timeout': 60, 'twin': len(present) == 1 and names == ['Q']})
     # two groups on the same anchor, one of them a fragment whose first atom is named like the anchor
-    for present in (['b1'], ['b1', 'b2'], ['a1', 'b1'], ['a1', 'b1', 'b2'], ['a1', 'a2', 'b1', 'b2']):
-        for special in ('Q', 'CA', 'N'):
+    groups2 = [['b1'], ['b1', 'b2'], ['a1', 'b1'], ['a1', 'b1', 'b2']] + ([['a1', 'a2', 'b1', 'b2']] if tier == 'thorough' else [])
+    for present in groups2:
+        for special in (('Q', 'CA') if tier == 'quick' else ('Q', 'CA', 'N')):
             names = ['Q'] * len(present)
             names[present.index('b1')] = special
             out.append({'fn': 'check_ptm', 'part': {'present': present, 'names': names},
